@@ -859,10 +859,16 @@ impl Parser {
                         Some(Lexem::Comma) => {}
                         Some(Lexem::RawString(ref ordering_field)) => {
                             let actual_field = match ordering_field.parse::<usize>() {
-                                Ok(idx) => fields[idx - 1].clone(),
+                                Ok(idx) if idx >= 1 && idx <= fields.len() => fields[idx - 1].clone(),
+                                Ok(_) => {
+                                    return Err(String::from("Order by position is out of range"));
+                                }
                                 _ => {
                                     self.drop_lexem();
-                                    self.parse_expr().unwrap().unwrap()
+                                    match self.parse_expr()? {
+                                        Some(expr) => expr,
+                                        None => return Err(String::from("Error parsing order by")),
+                                    }
                                 }
                             };
                             order_by_fields.push(actual_field);
@@ -870,6 +876,9 @@ impl Parser {
                         }
                         Some(Lexem::DescendingOrder) => {
                             let cnt = order_by_directions.len();
+                            if cnt == 0 {
+                                return Err(String::from("Error parsing order by, no field before desc"));
+                            }
                             order_by_directions[cnt - 1] = false;
                         }
                         _ => {
